@@ -1015,7 +1015,7 @@ class Interferogram(RichData):
         # 1000/L vs 1/L, um to mm
         upper_limit = 1000 / wavelength
         kernel = 4 * np.pi * np.cos(np.radians(incident_angle))
-        kernel *= self.bandlimited_rms(upper_limit, None) / wavelength
+        kernel *= self.bandlimited_rms(fhigh=upper_limit) / wavelength
         return 1 - np.exp(-kernel**2)
 
     def slope(self):
